@@ -45,6 +45,8 @@ def plan(tier):
 def attempts_strategy(draw):
     team = st.one_of(GS.TEAM, GS.TEAM, GS.TEAM, st.just(''))         # the empty name is a well-formed (and accepted) team name
     teams = draw(st.lists(team, min_size=2, max_size=2, unique=True))
+    if draw(st.integers(0, 3)) == 0:
+        teams = [teams[0], teams[0]]        # both sides under one name (one program playing all four seats): perfectly admissible
     other = draw(team.filter(lambda t: t not in teams))
     valid = [{'seat': s, 'team': teams[s % 2], 'version': 18, 'kind': 'valid'} for s in draw(permutations([0, 1, 2, 3]))]
     n_inv = draw(st.integers(0, 6))
@@ -60,7 +62,7 @@ def attempts_strategy(draw):
         else:
             # another team, the opponents' team, or the partner's own team in different letter case (team names are compared exactly)
             swapped = teams[seat % 2].swapcase()
-            inv.append({'seat': seat, 'team': draw(st.sampled_from([other, teams[1 - seat % 2]] + ([swapped, swapped] if swapped != teams[seat % 2] else []))), 'version': 18, 'kind': kind})
+            inv.append({'seat': seat, 'team': draw(st.sampled_from([other] + [t for t in (teams[1 - seat % 2], swapped, swapped) if t != teams[seat % 2]])), 'version': 18, 'kind': kind})
     # interleave: positions of invalid attempts among the valid ones, keeping dependencies satisfiable in list order:
     # a 'seat taken' / 'team mismatch' attempt is placed after the valid request it refers to; the last element is valid
     order = list(valid)
@@ -99,7 +101,9 @@ def attempts_strategy(draw):
         order[last_valid]['after'] = [x['id'] for x in order if x['id'] != last_valid]
     board = {'id': draw(GS.ID_TEXT), 'dealer': draw(st.integers(0, 3)), 'vul': draw(st.sampled_from(['None', 'NS', 'EW', 'Both'])),
              'owner': draw(PL.DEAL), 'dda': None, 'calls': [A.PASS] * 4, 'cards': []}
-    return {'attempts': order, 'teams': teams, 'mode': mode, 'board': board}
+    # requests may arrive in pieces (split deliveries: also between CR and LF, while the connection's thread is already reading)
+    return {'attempts': order, 'teams': teams, 'mode': mode, 'board': board,
+            'split': draw(st.one_of(st.none(), st.none(), st.lists(st.integers(1, 9), min_size=1, max_size=5)))}
 
 
 def attempt_client(att, adm, net, log, verdicts, kernel):
@@ -154,7 +158,7 @@ def run_admission(adm, schedule):
     os.makedirs(workdir, exist_ok=True)
     fd, out_path = tempfile.mkstemp(suffix='.json', dir=workdir)
     os.close(fd)
-    net = O.Network()
+    net = O.Network(split=adm.get('split'))
     kernel = Kernel(make_chooser(schedule), max_steps=SE.STEP_BOUND)
     if schedule.get('traced'):
         # a scheduling point at every source line of the admission code: a rejected connection's thread is then still
@@ -271,6 +275,10 @@ def check_session(adm_or_scenario, schedule, stats=None, attempts=None, **kw):
     if stats is not None:
         stats.evaluated()
         stats.cls(f'mode {adm["mode"]}')
+        if adm['teams'][0] == adm['teams'][1]:
+            stats.cls('both sides under the same team name')
+        if adm.get('split'):
+            stats.cls('requests delivered in pieces (split deliveries)')
         for k in rejections:
             stats.cls(f'rejected: {k}')
         stats.cls(f'rejections {min(len(rejections), 4)}{"+" if len(rejections) >= 4 else ""}')
